@@ -26,7 +26,9 @@ type Conn struct {
 	closed   bool
 	writeErr error
 
-	rdl, wdl     time.Time
+	rdl, wdl time.Time
+
+	nWdl         int // SetWriteDeadline calls
 	rtimer       *time.Timer
 	wtimer       *time.Timer
 	nRead, nWrit int
@@ -101,6 +103,15 @@ func (c *Conn) Output() []byte {
 	c.mu.Lock()
 	defer c.mu.Unlock()
 	return append([]byte(nil), c.out...)
+}
+
+// DiscardOutput forgets everything written so far (used to drop what a
+// negotiation wrote before the part of the session under test begins).
+func (c *Conn) DiscardOutput() {
+	c.mu.Lock()
+	c.out = nil
+	c.writeEnd = nil
+	c.mu.Unlock()
 }
 
 // OutputLen is len(Output()).
@@ -318,6 +329,7 @@ func (c *Conn) SetWriteDeadline(t time.Time) error {
 	c.mu.Lock()
 	defer c.mu.Unlock()
 	c.wdl = t
+	c.nWdl++
 	c.cond.Broadcast()
 	return nil
 }
@@ -328,6 +340,14 @@ func (c *Conn) FailWrites(err error) {
 	c.mu.Lock()
 	c.writeErr = err
 	c.mu.Unlock()
+}
+
+// WriteDeadlineCalls is the number of SetWriteDeadline calls so far (SetDeadline
+// counts as one).
+func (c *Conn) WriteDeadlineCalls() int {
+	c.mu.Lock()
+	defer c.mu.Unlock()
+	return c.nWdl
 }
 
 // DeadlineSet reports whether a read or write deadline is currently set.
